@@ -49,8 +49,14 @@ fn plan(c: &Case, n: usize) -> Vec<Vec<usize>> {
 }
 
 fn check(c: &Case, ctx: &Ctx) -> Outcome {
-    let (_anc, samples) = gen::materialise_set(&c.set);
+    let (_anc, mut samples) = gen::materialise_set(&c.set);
     let (k, rc) = (c.set.k, c.set.rc);
+    // In a fifth of the cases two different samples carry the same name (the same isolate sequenced in
+    // two batches, dirA/contigs.fa and dirB/contigs.fa): names are labels, every sample keeps its column.
+    if samples.len() >= 3 && (k / 2 + samples.len()) % 5 == 0 {
+        let last = samples.len() - 1;
+        samples[last].0 = samples[0].0.clone();
+    }
     let files = plan(c, samples.len());
     let dir = ctx.case_dir();
     let r: Result<(bool, bool), Outcome> = (|| {
